@@ -324,6 +324,80 @@ def check_request(W, rec, attrs, env, hostile_vars, body=None, limits=None):
     return ok
 
 
+def concurrent_requests(rec, W, rng, nthreads=8, per_thread=160):
+    """Schedule: request parsing happens on several threads of one process.  Every thread parses its own stream of
+    requests - well over a hundred distinct Host names with a trusted-host list configured, cookies, Accept and
+    Authorization values from the hostile alphabet - with yields injected at the lines of the host / URL helpers;
+    nothing but werkzeug's HTTP exceptions may come out, whatever the other threads are doing."""
+    import sys
+    import threading
+    import time
+
+    from werkzeug.exceptions import HTTPException
+    from werkzeug.sansio import utils as SU
+
+    mon = getattr(sys, "monitoring", None)
+    TOOL = 5
+    codes, inj = [], [0]
+    if mon is not None:
+        try:
+            mon.use_tool_id(TOOL, "verif-yield-c07")
+            for f in vars(SU).values():
+                c = getattr(f, "__code__", None)
+                if c is not None and getattr(f, "__module__", "") == SU.__name__:
+                    codes.append(c)
+
+            def on_line(code, line):
+                inj[0] += 1
+                if inj[0] % 2 == 0:
+                    time.sleep(0)
+
+            mon.register_callback(TOOL, mon.events.LINE, on_line)
+            for c in codes:
+                mon.set_local_events(TOOL, c, mon.events.LINE)
+        except ValueError:
+            mon = None
+    bad = []
+    values = [hostile.value(rng, 0, 6) for _ in range(40)]
+    old_si = sys.getswitchinterval()
+    sys.setswitchinterval(1e-6)
+    try:
+        def worker(i):
+            r = __import__("random").Random(i)
+            for n in range(per_thread):
+                host = f"t{i}-n{n}.Example.org" if r.random() < 0.8 else r.choice(values)
+                env = {"REQUEST_METHOD": "GET", "wsgi.url_scheme": "http", "SERVER_NAME": "srv", "SERVER_PORT": "80", "PATH_INFO": "/p", "SCRIPT_NAME": "",
+                       "QUERY_STRING": "a=1", "HTTP_HOST": host, "HTTP_COOKIE": r.choice(values), "HTTP_ACCEPT": r.choice(values), "HTTP_AUTHORIZATION": r.choice(values)}
+                rq = W.Request(env)
+                rq.trusted_hosts = [".example.org", "localhost", "b\u00fccher.example"]
+                for a in ("host", "url", "base_url", "host_url", "cookies", "accept_mimetypes", "authorization", "args"):
+                    try:
+                        getattr(rq, a)
+                    except HTTPException:
+                        pass
+                    except Exception as e:  # noqa: BLE001
+                        if len(bad) < 3:
+                            bad.append((a, host, e))
+
+        ths = [threading.Thread(target=worker, args=(i,)) for i in range(nthreads)]
+        for t_ in ths:
+            t_.start()
+        for t_ in ths:
+            t_.join(180)
+    finally:
+        sys.setswitchinterval(old_si)
+        if mon is not None:
+            for c in codes:
+                mon.set_local_events(TOOL, c, 0)
+            mon.free_tool_id(TOOL)
+    rec.case()
+    rec.nontrivial(("concurrent-requests", nthreads, per_thread))
+    rec.observe("concurrent_request_parses", nthreads * per_thread)
+    rec.observe("concurrent_injected_yields", inj[0])
+    for a, host, e in bad[:1]:
+        rec.violation(mech_key("C07", e).replace("C07/", "C07/concurrent:"), f"Request.{a} with Host {host!r} on one of {nthreads} threads: {e!r}", {"target": f"Request.{a}", "value": host, "threads": nthreads}, monitor="schedule-stress")
+
+
 def run(shard, rec, rng):
     W = world()
     from werkzeug import _internal as IN
@@ -343,6 +417,8 @@ def run(shard, rec, rng):
     attrs = attr_names(W)
     rec.note(f"Request attributes enumerated: {len(attrs)}")
     rec.observe("request_attributes_enumerated", len(attrs) if shard["index"] == 0 else 0)
+    if shard["index"] % 4 == 2:
+        concurrent_requests(rec, W, rng)
     # ---- direct parser calls
     for i in range(cfg["direct"]):
         s = hostile.value(rng, 0, 12)
